@@ -42,7 +42,8 @@ class Comment(TypedExpression):
             if "\n" in inner:
                 indent_prefix = " " * node.start_point.column
                 lines = inner.split("\n")
-                normalized = [lines[0]]
+                # The renderer puts one space after the opener itself.
+                normalized = [lines[0].lstrip(" ")]
                 for line in lines[1:]:
                     if indent_prefix and line.startswith(indent_prefix):
                         line = line[len(indent_prefix) :]
